@@ -709,3 +709,54 @@ Example respell_example :
   respell (mkPDirs "" "" "" [] [("app", "x")] [] [] []) =
   mkPDirs "" "" "" [Labels.mkLD [("app", "x")] true false []] [] [] [] [].
 Proof. reflexivity. Qed.
+
+(* ================= 7. the wrapper, unconditionally ================= *)
+
+Lemma distinct_ids_dec m : distinct_ids m \/ ~ distinct_ids m.
+Proof.
+  induction m as [|r t IH]; [left; exact I|]. cbn [distinct_ids].
+  destruct IH as [IH|IH]; [|right; tauto].
+  assert (D : (forall x, In x t -> id_equals (rid r) (rid x) = false) \/
+              ~ (forall x, In x t -> id_equals (rid r) (rid x) = false)).
+  { clear IH. induction t as [|y u IHu]; [left; intros x []|].
+    destruct (id_equals (rid r) (rid y)) eqn:E.
+    - right. intros H. specialize (H y (or_introl eq_refl)). congruence.
+    - destruct IHu as [H|H]; [left; intros x [<-|Hx]; auto|right; intros G; apply H; intros x Hx; apply G; right; exact Hx]. }
+  destruct D as [D|D]; [left; tauto|right; tauto].
+Qed.
+
+(* for EVERY kustomization directory: the wrapper is transparent, or it fails - and then precisely because two
+   of the resources the inner kustomization accumulated share an id *)
+Theorem build_wrap_total nonstr name o n d ents :
+  build nonstr o (wrap name (PDir n d ents)) = build nonstr o (PDir n d ents) \/
+  (build nonstr o (wrap name (PDir n d ents)) = Err /\
+   exists m, accumulate nonstr (PDir n d ents) = Ok m /\ ~ distinct_ids m).
+Proof.
+  destruct (accumulate nonstr (PDir n d ents)) as [m| | |] eqn:EA.
+  - destruct (distinct_ids_dec m) as [Hd|Hd].
+    + left. apply build_wrap; [eauto|]. intros m' H. rewrite EA in H. inv H. exact Hd.
+    + right. split; [eapply build_wrap_collision; eauto|eauto].
+  - left. apply build_wrap; [eauto|]. intros m H. rewrite EA in H. discriminate.
+  - left. apply build_wrap; [eauto|]. intros m H. rewrite EA in H. discriminate.
+  - left. apply build_wrap; [eauto|]. intros m H. rewrite EA in H. discriminate.
+Qed.
+
+(* non-vacuity of PIPE_wrap_partial: an overlay with a prefix, a generated ConfigMap and a reference to it *)
+Definition wrap_example_tree : ptree :=
+  PDir "base" (mkPDirs "" "p-" "" [] [] [] [mkPGen "cfg" "" "" ["a=1"] "" false [] [] false] [])
+    [PFile [Map [("apiVersion", str_node "v1"); ("kind", str_node "Pod");
+                 ("metadata", Map [("name", str_node "web")]);
+                 ("spec", Map [("volumes", Seq [Map [("name", str_node "v");
+                                                     ("configMap", Map [("name", str_node "cfg")])]])])]]].
+
+Example wrap_example :
+  build (fun _ => false) PSortNone (wrap "overlay" wrap_example_tree) =
+  build (fun _ => false) PSortNone wrap_example_tree /\
+  exists outs, build (fun _ => false) PSortNone wrap_example_tree = Ok outs /\ List.length outs = 2.
+Proof.
+  split.
+  - apply build_wrap; [unfold wrap_example_tree; eauto|].
+    intros m H. vm_compute in H. inv H. cbn [distinct_ids]. split; [|split; [intros x []|exact I]].
+    intros x [<-|[]]. vm_compute. reflexivity.
+  - eexists. split; [vm_compute; reflexivity|reflexivity].
+Qed.
